@@ -725,3 +725,222 @@ pub fn lists(rng: &mut Rng, be: bool, asz: u8, d64: bool, version: u16) -> (Vec<
     }
     (r.v, rl.v, l.v, ll.v, first)
 }
+
+const AT_POOL: &[u64] = &[
+    0x01, 0x02, 0x03, 0x10, 0x11, 0x12, 0x1b, 0x1c, 0x2e, 0x31, 0x3a, 0x40, 0x43, 0x49, 0x52, 0x55,
+    0x58, 0x72, 0x73, 0x74, 0x76, 0x79, 0x8c, 0x2111, 0x2130, 0x2131, 0x2132, 0x2133, 0x13, 0x3e, 0x0b,
+];
+const FORM_POOL: &[u64] = &[
+    0x01, 0x03, 0x04, 0x05, 0x06, 0x07, 0x08, 0x09, 0x0a, 0x0b, 0x0c, 0x0d, 0x0e, 0x0f, 0x10, 0x11,
+    0x12, 0x13, 0x14, 0x15, 0x16, 0x17, 0x18, 0x19, 0x1a, 0x1b, 0x1c, 0x1d, 0x1e, 0x1f, 0x20, 0x21,
+    0x22, 0x23, 0x24, 0x25, 0x26, 0x27, 0x28, 0x29, 0x2a, 0x2b, 0x2c, 0x1f01, 0x1f02, 0x1f20, 0x1f21,
+];
+
+#[derive(Clone, Debug)]
+struct AbbrevSpec {
+    code: u64,
+    children: bool,
+    attrs: Vec<(u64, u64)>,
+}
+
+fn emit_info_form(rng: &mut Rng, a: &mut Asm, form: u64, asz: u8, d64: bool, version: u16, depth: u32) {
+    let small = |rng: &mut Rng| if rng.chance(1, 8) { rng.interesting() } else { rng.below(64) };
+    match form {
+        0x01 => {
+            let v = addr_val(rng, asz);
+            a.uint(v, asz as usize);
+        }
+        0x03 => {
+            let l = rng.usize(6);
+            a.u16(if rng.chance(1, 16) { 0xffff } else { l as u16 });
+            let b = rng.bytes(l);
+            a.bytes(&b);
+        }
+        0x04 => {
+            let l = rng.usize(6);
+            a.u32(if rng.chance(1, 16) { 0xffff_ffff } else { l as u32 });
+            let b = rng.bytes(l);
+            a.bytes(&b);
+        }
+        0x05 | 0x12 | 0x26 | 0x2a => {
+            a.u16(small(rng) as u16);
+        }
+        0x06 | 0x13 | 0x28 | 0x2c | 0x1c => {
+            a.u32(small(rng) as u32);
+        }
+        0x07 | 0x14 | 0x20 | 0x24 => {
+            a.u64(small(rng));
+        }
+        0x08 => {
+            let nm = name(rng);
+            if rng.chance(1, 24) { a.bytes(&nm); } else { a.cstr(&nm); }
+        }
+        0x09 | 0x18 => {
+            let x = small_expr(rng);
+            a.uleb(if rng.chance(1, 16) { rng.interesting() } else { x.len() as u64 });
+            a.bytes(&x);
+        }
+        0x0a => {
+            let x = small_expr(rng);
+            a.u8(x.len() as u8).bytes(&x);
+        }
+        0x0b | 0x0c | 0x11 | 0x25 | 0x29 => {
+            a.u8(small(rng) as u8);
+        }
+        0x0d => {
+            a.sleb(small(rng) as i64);
+        }
+        0x0e | 0x17 | 0x1d | 0x1f | 0x1f20 | 0x1f21 => {
+            a.word(small(rng), d64);
+        }
+        0x10 => {
+            // ref_addr: address-sized in v2, offset-sized later
+            if version == 2 { a.uint(small(rng), asz as usize); } else { a.word(small(rng), d64); }
+        }
+        0x0f | 0x15 | 0x1a | 0x1b | 0x22 | 0x23 | 0x1f01 | 0x1f02 => {
+            a.uleb(small(rng));
+        }
+        0x16 => {
+            // indirect: the real form follows as uleb
+            let f = if depth < 3 && rng.chance(1, 4) { 0x16 } else { *rng.pick(FORM_POOL) };
+            let f = if f == 0x21 { 0x0b } else { f };
+            a.uleb(f);
+            emit_info_form(rng, a, f, asz, d64, version, depth + 1);
+        }
+        0x19 | 0x21 => {}
+        0x1e => {
+            let b = rng.bytes(16);
+            a.bytes(&b);
+        }
+        0x27 | 0x2b => {
+            a.uint(small(rng), 3);
+        }
+        _ => {}
+    }
+}
+
+/// Hand-assembled .debug_abbrev + .debug_info (+ .debug_types): all unit types, all forms,
+/// sparse/huge abbreviation codes, sibling pointers, null padding.
+pub fn info(rng: &mut Rng, be: bool, asz: u8) -> (Vec<u8>, Vec<u8>, Vec<u8>) {
+    let mut ab = Asm::new(be);
+    let mut info = Asm::new(be);
+    let mut types = Asm::new(be);
+    let nunits = 1 + rng.usize(3);
+    for ui in 0..nunits {
+        let share = ui > 0 && rng.chance(1, 3);
+        let abbrev_off = if share { 0 } else { ab.len() };
+        // abbreviations
+        let scheme = rng.below(4);
+        let k = 1 + rng.usize(5);
+        let mut specs = Vec::new();
+        for i in 0..k {
+            let code = match scheme {
+                0 | 1 => i as u64 + 1,
+                2 => (i as u64 + 1) * 1000 + rng.below(10),
+                _ => if i == 0 { 1 } else { rng.interesting().max(2) },
+            };
+            let mut attrs = Vec::new();
+            for _ in 0..rng.usize(6) {
+                let at = if rng.chance(1, 12) { rng.below(0x4000) } else { *rng.pick(AT_POOL) };
+                let form = if rng.chance(1, 24) { rng.below(0x30) } else { *rng.pick(FORM_POOL) };
+                attrs.push((at, form));
+            }
+            specs.push(AbbrevSpec { code, children: rng.chance(1, 3), attrs });
+        }
+        let mut implicit: Vec<Vec<i64>> = Vec::new();
+        if !share {
+            for s in &specs {
+                ab.uleb(s.code);
+                ab.uleb(if rng.chance(1, 24) { 0 } else if ui == 0 && s.code == specs[0].code { 0x11 } else { *rng.pick(&[0x2eu64, 0x34, 0x0b, 0x13, 0x1d, 0x24, 0x39, 0x41, 0x4a]) });
+                ab.u8(if rng.chance(1, 32) { 2 } else { s.children as u8 });
+                let mut imp = Vec::new();
+                for (at, form) in &s.attrs {
+                    ab.uleb(if rng.chance(1, 48) { 0 } else { *at });
+                    ab.uleb(*form);
+                    if *form == 0x21 {
+                        let v = rng.interesting() as i64;
+                        ab.sleb(v);
+                        imp.push(v);
+                    }
+                }
+                implicit.push(imp);
+                ab.u8(0).u8(0);
+            }
+            if !rng.chance(1, 12) {
+                ab.u8(0);
+            }
+        }
+        // unit header
+        let version = *rng.pick(&[2u16, 3, 4, 4, 5, 5, 5]);
+        let d64 = rng.chance(1, 5);
+        let in_types = version == 4 && rng.chance(1, 5);
+        let a: &mut Asm = if in_types { &mut types } else { &mut info };
+        let unit_start = a.len();
+        let tok = a.begin_len(d64);
+        a.u16(if rng.chance(1, 32) { *rng.pick(&[0u16, 1, 6, 0xffff]) } else { version });
+        let asz_b = if rng.chance(1, 32) { rng.next() as u8 } else { asz };
+        if version >= 5 {
+            let ut = if rng.chance(1, 24) { rng.next() as u8 } else { *rng.pick(&[1u8, 1, 2, 3, 4, 5, 6]) };
+            a.u8(ut).u8(asz_b).word(abbrev_off as u64, d64);
+            match ut {
+                4 | 5 => {
+                    a.u64(rng.next());
+                }
+                2 | 6 => {
+                    a.u64(rng.next());
+                    a.word(if rng.chance(1, 6) { rng.interesting() } else { 0x20 }, d64);
+                }
+                _ => {}
+            }
+        } else {
+            a.word(if rng.chance(1, 24) { rng.interesting() } else { abbrev_off as u64 }, d64).u8(asz_b);
+            if in_types {
+                a.u64(rng.next());
+                a.word(if rng.chance(1, 6) { rng.interesting() } else { 0x20 }, d64);
+            }
+        }
+        // DIE stream
+        let mut depth = 0i32;
+        let n = 1 + rng.usize(12);
+        for di in 0..n {
+            if depth > 0 && rng.chance(1, 4) {
+                a.u8(0);
+                depth -= 1;
+                continue;
+            }
+            let s = if di == 0 { &specs[0] } else { rng.pick(&specs) };
+            let code = if rng.chance(1, 32) { rng.interesting() } else { s.code };
+            a.uleb(code);
+            for (at, form) in &s.attrs {
+                if *at == 0x01 && matches!(*form, 0x11 | 0x12 | 0x13 | 0x14 | 0x15) && !rng.chance(1, 4) {
+                    // plausible sibling pointer: a bit ahead of here, relative to the unit
+                    let here = (a.len() - unit_start) as u64;
+                    let target = here + rng.below(24);
+                    match *form {
+                        0x11 => { a.u8(target as u8); }
+                        0x12 => { a.u16(target as u16); }
+                        0x13 => { a.u32(target as u32); }
+                        0x14 => { a.u64(target); }
+                        _ => { a.uleb(target); }
+                    }
+                } else {
+                    emit_info_form(rng, a, *form, asz, d64, version, 0);
+                }
+            }
+            if s.children {
+                depth += 1;
+            }
+        }
+        while depth > 0 && !rng.chance(1, 6) {
+            a.u8(0);
+            depth -= 1;
+        }
+        for _ in 0..rng.usize(3) {
+            a.u8(0); // null padding
+        }
+        let d = lie(rng);
+        a.end_len(tok, d);
+        let _ = implicit;
+    }
+    (ab.v, info.v, types.v)
+}
